@@ -151,7 +151,7 @@ func checkBuildersDeterministic(r *Report, p *Prog, rule string) {
 
 // assertionMakerFn: role = method named by the AssertionMaker interface on the default maker.
 func assertionMakerFn(p *Prog) *ssa.Function {
-	return p.MustFunc("saml", "DefaultAssertionMaker", "MakeAssertion")
+	return p.Worker("saml", "DefaultAssertionMaker", "MakeAssertion")
 }
 
 func checkC06Fields(r *Report, p *Prog, rule string) {
@@ -638,7 +638,14 @@ func checkC06Signed(r *Report, p *Prog) {
 			added := false
 			for _, x := range rg.Calls("(*" + etreePath + ".Element).AddChild") {
 				c := x.I.(*ssa.Call)
-				if !strings.HasSuffix(a.Ctx(c.Parent()).AP(c.Call.Args[1]), "IdpAuthnRequest.AssertionEl") {
+				// (the added element as the function under test names it: a helper's parameter is what it was handed)
+				addedOK := strings.HasSuffix(rg.Ctx(a, x.C).AP(c.Call.Args[1]), "IdpAuthnRequest.AssertionEl")
+				for _, o := range rg.Origins(RV{V: c.Call.Args[1], C: x.C}) {
+					if strings.HasSuffix(rg.Ctx(a, o.C).AP(o.V), "IdpAuthnRequest.AssertionEl") {
+						addedOK = true
+					}
+				}
+				if !addedOK {
 					continue
 				}
 				if rg.IsFrom(RV{V: c.Call.Args[0], C: x.C}, rebuilt) {
